@@ -213,7 +213,7 @@ theorem updateScores_spec (b : Book) (start : Nat) (r : Nat → Nat) (hwf : WF b
     apply scoresOf_congr
     · simp [Book.isPending, hI3.pending]
     · exact hI3.costs
-    · exact hI3.depth j
+    · rw [hI3.depth j]
     · have := congrArg Node.bestMove hsk; exact this
     · have := congrArg Node.search hsk; exact this
     · exact hI3.children j
